@@ -854,6 +854,12 @@ def stub_of(ct, env, solver, record=True):
         sync_from_solver(env, solver)
         if ct.name == "_time_integration":
             env.ghost["dt"] = k.get("time_discretization", a[0] if a else None)
+            rdt = env.ghost.get("run_dt")
+            if rdt is not None:
+                # C03 at the level of a run: the step the integrator is handed is THIS run's time_discretization
+                arg = env.ghost["dt"]
+                c.prove_in_path("call[_time_integration]:time-step=this-run's-time_discretization(SI)",
+                                L._b(isinstance(arg, SymQ)) if not isinstance(arg, SymQ) else sym.term_of(arg.si()) == sym.term_of(rdt.si()))
         for i, g in enumerate(ct.pre(env)):
             c.prove_in_path(f"call[{ct.name}]:requires[{i}]", g)
         old = env.state.snapshot()
@@ -1313,7 +1319,9 @@ def inv_run(env, i, entry):
     return d
 
 
-def job_run(fresh, with_stop, with_control):
+def job_run(fresh, with_stop, with_control, then_continue=False):
+    """then_continue: after the (fresh) run returns, the SAME solver object runs again with another dt and T -- the second run
+    starts from whatever the real first run left in the solver object (not only from the state the abstract model knows of)"""
     props = ("C01", "C02", "C03", "C11", "C12", "C13", "C14", "C16", "C17", "C07")
 
     def body(c, O):
@@ -1379,6 +1387,22 @@ def job_run(fresh, with_stop, with_control):
             O.fail("no-unexpected-exception", props=props, note=f"{type(r).__name__}: {r}")
             return
         O.cover("returns")
+        if then_continue:
+            # second run on the same solver object: the loop-invariant, frame and call obligations of the real run() are recorded
+            # on the path by the loop cut and the contract stubs (among them: the integrator gets THIS run's time step)
+            dt2 = H.mkq(c, "TimeInterval", "dt_of_the_second_run")
+            T2 = H.mkq(c, "TimeInterval", "T_of_the_second_run")
+            for key in ("grid", "run_entry", "run_first", "loop_exit", "run_entry_log"):
+                env.ghost.pop(key, None)
+            env.ghost["run_dt"], env.ghost["run_T"] = dt2, T2
+            env.ghost["arange_facts"] = [env.fac("Time", AM.unit_idx("Time", dt2.unit)) > 0, dt2.si() > 0]
+            env.ghost["old"] = env.state.snapshot()
+            st2, r2 = H.call(solver.run, time_discretization=dt2, simulation_time=T2, motor_control=None, stop_condition=None)
+            sync_from_solver(env, solver)
+            if st2 == "raise" and not (isinstance(r2, ValueError) and "time_discretization" in str(r2)):
+                O.fail("second-run:no-unexpected-exception", props=props, note=f"{type(r2).__name__}: {r2}")
+            O.cover("second-run-done")
+            return
         g = env.ghost
         grid = g.get("grid")
         ex = g.get("loop_exit")
@@ -1428,6 +1452,9 @@ def job_run(fresh, with_stop, with_control):
             O.prove("stop:nothing-recorded-after-the-instant-that-satisfied-the-condition",
                     bool(ev) and not env.state.changed_since(ev[-1][2]) and log[-1][0] == "stop_check", props=("C16",))
             O.prove("stop:axis-is-a-prefix-of-the-grid", z3.And(env.state["tlen"] <= e["tlen"] + grid.N), props=("C11", "C16"))
+            O.prove("stop:last-recorded-instant-is-the-grid-point-of-its-index(previous+k*dt, SI)",
+                    L.Via([fdt > 0, DT > 0] + list(grid.grid_facts),
+                          env.state["tlast_val"] == t0 + z3.ToReal(env.state["tlen"] - e["tlen"]) * DT), props=("C11", "C12", "C16"))
         else:
             O.cover("exit:exhausted")
             stf = env.state
@@ -1438,6 +1465,9 @@ def job_run(fresh, with_stop, with_control):
             O.prove("grid:instants-carry-dt's-unit", z3.Implies(grid.N >= 1, stf["tlast_unit"] == AM.unit_idx("Time", dt.unit)), props=("C11",))
 
     tag = ("fresh" if fresh else "continuation") + (",stop" if with_stop else "") + (",control" if with_control else "")
+    if then_continue:
+        return Job(f"solver.run[{tag},then-a-second-run-on-the-same-solver]", body, props, functions=[f"{Q}.run"],
+                   expect_covers=("returns", "second-run-done"), meta=dict(family="solver-run", fresh=fresh, with_stop=False, with_control=False))
     return Job(f"solver.run[{tag}]", body, props, functions=[f"{Q}.run"],
                expect_covers=("returns", "exit:exhausted") + (("exit:break",) if with_stop else ()),
                meta=dict(family="solver-run", fresh=fresh, with_stop=with_stop, with_control=with_control,
@@ -1589,4 +1619,5 @@ def all_jobs(exact_tables=None):
                 jobs.append(job_run(fresh, with_stop, with_control))
         for held in (False, True):
             jobs.append(job_run_order(fresh, held))
+    jobs.append(job_run(True, False, False, then_continue=True))
     return jobs
